@@ -7,6 +7,7 @@ import (
 	"time"
 
 	"github.com/bmeg/grip/config"
+	"github.com/bmeg/grip/gdbi"
 	"github.com/bmeg/grip/gripper"
 	"github.com/bmeg/grip/gripql"
 	"github.com/bmeg/grip/log"
@@ -60,7 +61,10 @@ func (server *GripServer) buildSchemas(ctx context.Context) {
 				if isSchema(name) {
 					continue
 				}
-				if _, ok := server.schemas[name]; ok {
+				server.mapLock.RLock()
+				_, ok := server.schemas[name]
+				server.mapLock.RUnlock()
+				if ok {
 					log.WithFields(log.Fields{"graph": name}).Debug("skipping build; cached schema found")
 					continue
 				}
@@ -72,7 +76,9 @@ func (server *GripServer) buildSchemas(ctx context.Context) {
 					if err != nil {
 						log.WithFields(log.Fields{"graph": name, "error": err}).Error("failed to store graph schema")
 					}
+					server.mapLock.Lock()
 					server.schemas[name] = schema
+					server.mapLock.Unlock()
 				} else {
 					log.WithFields(log.Fields{"graph": name, "error": err}).Error("failed to build graph schema")
 				}
@@ -107,8 +113,17 @@ func (server *GripServer) updateGraphMap() {
 	for k, v := range server.conf.Graphs {
 		o[k] = v
 	}
-	for n, dbs := range server.dbs {
-		for _, g := range dbs.ListGraphs() {
+	// snapshot the drivers: gripper drivers found below are added to the live
+	// map only when the new graph map is published
+	server.mapLock.RLock()
+	dbs := make(map[string]gdbi.GraphDB, len(server.dbs))
+	for n, d := range server.dbs {
+		dbs[n] = d
+	}
+	server.mapLock.RUnlock()
+	newDBs := map[string]gdbi.GraphDB{}
+	for n, db := range dbs {
+		for _, g := range db.ListGraphs() {
 			o[g] = n
 			if strings.HasSuffix(g, "__mapping__") {
 				graph, err := server.getGraph(g)
@@ -119,7 +134,7 @@ func (server *GripServer) updateGraphMap() {
 					gdb, err := StartDriver(config.DriverConfig{Gripper: &gripper.Config{Graph: graphName, Mapping: mapping}}, server.sources)
 					if err == nil {
 						driverName := fmt.Sprintf("%s__driver__", graphName)
-						server.dbs[driverName] = gdb
+						newDBs[driverName] = gdb
 						o[graphName] = driverName
 					} else {
 						log.Errorf("Failed to start gripper: %s", graphName)
@@ -130,7 +145,12 @@ func (server *GripServer) updateGraphMap() {
 			}
 		}
 	}
+	server.mapLock.Lock()
+	for n, d := range newDBs {
+		server.dbs[n] = d
+	}
 	server.graphMap = o
+	server.mapLock.Unlock()
 }
 
 func (server *GripServer) addFullGraph(ctx context.Context, graphName string, schema *gripql.Graph) error {
